@@ -51,32 +51,33 @@ theorem feedN_succ (n : Nat) (hl : Option (Hl σ)) : feedN (n + 1) hl = feed (fe
 theorem feed_some (l : σ) (n : Nat) : feed (some (l, n)) = some (l, n + 1) := rfl
 
 /-- The invariant carried along an event sequence. -/
-def Inv (ph : Phase) (s : State σ) : Prop :=
+def Inv (u : Bool) (ph : Phase) (s : State σ) : Prop :=
+  s.unified = u ∧
   Consec s.hl s.buffered ∧
   (ph ≠ .start → s.syn = s.cur) ∧
   (ph = .hunk → feedN s.buffered.length s.hl = some (s.cur, s.lineNo))
 
 /-- Phase after an event. -/
 def next : Phase → Event → Phase
-  | _, .fileMinus _ => .header
-  | _, .filePlus _ => .header
+  | _, .fileMinus _ _ => .header
+  | _, .filePlus _ _ => .header
   | _, .hunkHeader => .hunk
   | _, .changedLine _ => .hunk
   | _, .contextLine => .hunk
   | ph, .flush => ph
 
 /-- The event is allowed in this phase (one step of `wf`). -/
-def allowed : Phase → Event → Bool
-  | _, .fileMinus _ => true
-  | ph, .filePlus n => n.isSome || ph != .start
+def allowed (u : Bool) : Phase → Event → Bool
+  | _, .fileMinus n mk => !u || mk == n
+  | ph, .filePlus n mk => (n.isSome || ph != .start) && (!u || mk == n)
   | ph, .hunkHeader => ph != .start
   | ph, .changedLine _ => ph == .hunk
   | ph, .contextLine => ph == .hunk
   | _, .flush => true
 
-theorem wf_cons (ph : Phase) (e : Event) (rest : List Event) :
-    wf ph (e :: rest) = (allowed ph e && wf (next ph e) rest) := by
-  cases e <;> simp [wf, allowed, next]
+theorem wf_cons (u : Bool) (ph : Phase) (e : Event) (rest : List Event) :
+    wf u ph (e :: rest) = (allowed u ph e && wf u (next ph e) rest) := by
+  cases e <;> simp [wf, allowed, next, Bool.and_assoc]
 
 /-- `paint_buffered_minus_and_plus_lines` under the invariant. -/
 theorem flush_ok (lang : Option (List Char) → σ) (s : State σ) (h : Consec s.hl s.buffered) :
@@ -86,33 +87,77 @@ theorem flush_ok (lang : Option (List Char) → σ) (s : State σ) (h : Consec s
   obtain ⟨a, b⟩ := paintBuf_ok s.hl s.buffered h
   exact ⟨a, by simp [execStmt, b]⟩
 
-theorem step_inv (lang : Option (List Char) → σ) (ph : Phase) (s : State σ) (e : Event)
-    (hi : Inv ph s) (ha : allowed ph e = true) :
-    (∀ p ∈ (step lang s e).2, Ok p) ∧ Inv (next ph e) (step lang s e).1 := by
-  obtain ⟨hc, hsyn, hh⟩ := hi
+theorem step_inv (lang : Option (List Char) → σ) (u : Bool) (ph : Phase) (s : State σ) (e : Event)
+    (hi : Inv u ph s) (ha : allowed u ph e = true) :
+    (∀ p ∈ (step lang s e).2, Ok p) ∧ Inv u (next ph e) (step lang s e).1 := by
+  obtain ⟨hu, hc, hsyn, hh⟩ := hi
+  -- the shapes of `handle_diff_header_minus_line` under which the property holds: the parsed path
+  -- for git input; for plain `diff -u` input either the raw line (then `mk = n` is needed) or the
+  -- parsed path as well
+  have hm : minusHeaderStmts = [(.ifSourceDiffUnified, .setSyntax .minus .markerLine),
+        (.ifSourceNotDiffUnified, .setSyntax .minus .parsedPath), (.always, .paintBuffered)] ∨
+      minusHeaderStmts = [(.ifSourceDiffUnified, .setSyntax .minus .parsedPath),
+        (.ifSourceNotDiffUnified, .setSyntax .minus .parsedPath), (.always, .paintBuffered)] ∨
+      minusHeaderStmts = [(.always, .setSyntax .minus .parsedPath), (.always, .paintBuffered)] := by
+    decide
+  have hpl : plusHeaderStmts = [(.ifPlusNotDevNull, .setSyntax .plus .parsedPath),
+      (.always, .paintBuffered)] := by decide
   cases e with
-  | fileMinus n =>
-    obtain ⟨a, b⟩ := flush_ok lang { s with minusName := n, cur := lang n, syn := lang n } hc
-    simp only [step, minusHeaderStmts, execStmts, evalGuard, if_true, execStmt, List.nil_append,
-      List.append_nil] at a b ⊢
-    refine ⟨a, ?_⟩
-    simp [Inv, next, Consec]
-  | filePlus n =>
+  | fileMinus n mk =>
+    have hmk : s.unified = true → mk = n := by
+      intro h
+      rw [hu] at h
+      simpa [allowed, h] using ha
+    obtain ⟨a, b⟩ := flush_ok lang
+      { s with minusName := n, minusMarker := mk, cur := lang n, syn := lang n } hc
+    rcases hm with hm | hm | hm
+    · cases hun : s.unified with
+      | true =>
+        have := hmk hun
+        subst this
+        simp only [step, hm, execStmts, evalGuard, hun, Bool.not_true, Bool.false_eq_true, if_true,
+          if_false, execStmt, List.nil_append, List.append_nil] at a b ⊢
+        refine ⟨a, ?_⟩
+        simp [Inv, next, Consec, ← hu, hun]
+      | false =>
+        simp only [step, hm, execStmts, evalGuard, hun, Bool.not_false, Bool.false_eq_true, if_true,
+          if_false, execStmt, List.nil_append, List.append_nil] at a b ⊢
+        refine ⟨a, ?_⟩
+        simp [Inv, next, Consec, ← hu, hun]
+    · cases hun : s.unified with
+      | true =>
+        simp only [step, hm, execStmts, evalGuard, hun, Bool.not_true, Bool.false_eq_true, if_true,
+          if_false, execStmt, List.nil_append, List.append_nil] at a b ⊢
+        refine ⟨a, ?_⟩
+        simp [Inv, next, Consec, ← hu, hun]
+      | false =>
+        simp only [step, hm, execStmts, evalGuard, hun, Bool.not_false, Bool.false_eq_true, if_true,
+          if_false, execStmt, List.nil_append, List.append_nil] at a b ⊢
+        refine ⟨a, ?_⟩
+        simp [Inv, next, Consec, ← hu, hun]
+    · simp only [step, hm, execStmts, evalGuard, if_true, execStmt, List.nil_append,
+        List.append_nil] at a b ⊢
+      refine ⟨a, ?_⟩
+      simp [Inv, next, Consec, hu]
+  | filePlus n mk =>
     cases n with
     | none =>
-      have hph : ph ≠ .start := by simpa [allowed] using ha
-      obtain ⟨a, b⟩ := flush_ok lang { s with plusName := none } hc
-      simp only [step, plusHeaderStmts, execStmts, evalGuard, Option.isSome_none, Bool.false_eq_true,
+      have hph : ph ≠ .start := by
+        have := ha
+        simp only [allowed, Option.isSome_none, Bool.false_or, Bool.and_eq_true] at this
+        simpa using this.1
+      obtain ⟨a, b⟩ := flush_ok lang { s with plusName := none, plusMarker := mk } hc
+      simp only [step, hpl, execStmts, evalGuard, Option.isSome_none, Bool.false_eq_true,
         if_false, if_true, execStmt, List.nil_append, List.append_nil] at a b ⊢
       refine ⟨a, ?_⟩
-      simp [Inv, next, Consec, hsyn hph]
+      simp [Inv, next, Consec, hsyn hph, hu]
     | some m =>
       obtain ⟨a, b⟩ := flush_ok lang
-        { s with plusName := some m, cur := lang (some m), syn := lang (some m) } hc
-      simp only [step, plusHeaderStmts, execStmts, evalGuard, Option.isSome_some, if_true, execStmt,
+        { s with plusName := some m, plusMarker := mk, cur := lang (some m), syn := lang (some m) } hc
+      simp only [step, hpl, execStmts, evalGuard, Option.isSome_some, if_true, execStmt,
         List.nil_append, List.append_nil] at a b ⊢
       refine ⟨a, ?_⟩
-      simp [Inv, next, Consec]
+      simp [Inv, next, Consec, hu]
   | hunkHeader =>
     have hph : ph ≠ .start := by simpa [allowed] using ha
     have hs := hsyn hph
@@ -128,7 +173,7 @@ theorem step_inv (lang : Option (List Char) → σ) (ph : Phase) (s : State σ) 
       · simp only [List.mem_singleton] at hp
         subst hp
         simp [Ok, hs]
-    · simp [Inv, next, Consec, feedN, hs]
+    · simp [Inv, next, Consec, feedN, hs, hu]
   | changedLine fl =>
     have hph : ph = .hunk := by simpa [allowed] using ha
     have hn := hh hph
@@ -136,7 +181,7 @@ theorem step_inv (lang : Option (List Char) → σ) (ph : Phase) (s : State σ) 
     | false =>
       simp only [step, Bool.false_eq_true, if_false]
       refine ⟨by simp, ?_⟩
-      refine ⟨consec_append _ _ _ hc hn, fun _ => hsyn (by simp [hph]), fun _ => ?_⟩
+      refine ⟨hu, consec_append _ _ _ hc hn, fun _ => hsyn (by simp [hph]), fun _ => ?_⟩
       simp only [List.length_append, List.length_singleton]
       rw [feedN_succ, hn]; rfl
     | true =>
@@ -144,7 +189,7 @@ theorem step_inv (lang : Option (List Char) → σ) (ph : Phase) (s : State σ) 
       simp only [step, if_true]
       refine ⟨a, ?_⟩
       rw [b]
-      refine ⟨?_, fun _ => hsyn (by simp [hph]), fun _ => ?_⟩
+      refine ⟨hu, ?_, fun _ => hsyn (by simp [hph]), fun _ => ?_⟩
       · exact ⟨by simpa using hn, trivial⟩
       · simp only [List.nil_append, List.length_singleton]
         rw [feedN_succ]
@@ -163,7 +208,7 @@ theorem step_inv (lang : Option (List Char) → σ) (ph : Phase) (s : State σ) 
       · simp only [List.mem_singleton] at hp
         subst hp
         simpa [Ok] using hn
-    · refine ⟨trivial, fun _ => hsyn (by simp [hph]), fun _ => ?_⟩
+    · refine ⟨hu, trivial, fun _ => hsyn (by simp [hph]), fun _ => ?_⟩
       simp only [List.length_nil, feedN]
       rw [hn]; rfl
   | flush =>
@@ -171,15 +216,15 @@ theorem step_inv (lang : Option (List Char) → σ) (ph : Phase) (s : State σ) 
     simp only [step]
     refine ⟨a, ?_⟩
     rw [b]
-    exact ⟨trivial, hsyn, fun h => by simpa [feedN] using hh h⟩
+    exact ⟨hu, trivial, hsyn, fun h => by simpa [feedN] using hh h⟩
 
-theorem run_inv (lang : Option (List Char) → σ) (evs : List Event) (ph : Phase) (s : State σ)
-    (hi : Inv ph s) (hw : wf ph evs = true) : ∀ p ∈ (run lang s evs).2, Ok p := by
+theorem run_inv (lang : Option (List Char) → σ) (u : Bool) (evs : List Event) (ph : Phase)
+    (s : State σ) (hi : Inv u ph s) (hw : wf u ph evs = true) : ∀ p ∈ (run lang s evs).2, Ok p := by
   induction evs generalizing ph s with
   | nil => simp [run]
   | cons e rest ih =>
     rw [wf_cons, Bool.and_eq_true] at hw
-    obtain ⟨a, b⟩ := step_inv lang ph s e hi hw.1
+    obtain ⟨a, b⟩ := step_inv lang u ph s e hi hw.1
     intro p hp
     simp only [run, List.mem_append] at hp
     rcases hp with hp | hp
@@ -189,8 +234,8 @@ theorem run_inv (lang : Option (List Char) → σ) (evs : List Event) (ph : Phas
 /-! ### What is expected is the language of the current file -/
 
 def isFileEvent : Event → Bool
-  | .fileMinus _ => true
-  | .filePlus _ => true
+  | .fileMinus _ _ => true
+  | .filePlus _ _ => true
   | _ => false
 
 /-- Without a file header line in between, everything painted expects the same language,
@@ -220,8 +265,8 @@ theorem expected_is_cur (lang : Option (List Char) → σ) (evs : List Event) (s
     intro p hp
     simp only [run, List.mem_append] at hp
     cases e with
-    | fileMinus n => simp [isFileEvent] at he
-    | filePlus n => simp [isFileEvent] at he
+    | fileMinus n mk => simp [isFileEvent] at he
+    | filePlus n mk => simp [isFileEvent] at he
     | hunkHeader =>
       simp only [step, hov, execStmts, evalGuard, if_true, execStmt, List.nil_append,
         List.append_nil] at hp
